@@ -1300,7 +1300,7 @@ p_socket_send_to (const PSocket		*socket,
 		if ((ret = sendto (socket->fd,
 				   buffer,
 				   (socklen_t) buflen,
-				   0,
+				   P_SOCKET_DEFAULT_SEND_FLAGS,
 				   (struct sockaddr *) &sa,
 				   optlen)) < 0) {
 			err_code = p_error_get_last_net ();
